@@ -179,6 +179,7 @@ func evalScript(c scriptCase) (class, desc string, outLen int) {
 	var key, payload, wireBody []byte
 	var req *http.Request
 	var err error
+	var wrap func(http.Handler) http.Handler
 	encrypted := false // must the response be encrypted?
 	pfx := "crypt"
 	switch c.Route {
@@ -189,7 +190,7 @@ func evalScript(c scriptCase) (class, desc string, outLen int) {
 			wireBody = []byte(base64.StdEncoding.EncodeToString(aesEncryptECB(key, payload)))
 		}
 		req, err = newServerRequest("POST", "/crypt", wireBody, false)
-		h = handler.CryptionHandler(key)(h)
+		wrap = func(h http.Handler) http.Handler { return handler.CryptionHandler(key)(h) }
 		encrypted = true // CryptionHandler encrypts every response, also to a request without a body
 	case "cs":
 		pfx = "cs"
@@ -208,7 +209,9 @@ func evalScript(c scriptCase) (class, desc string, outLen int) {
 		if err == nil {
 			req.Header.Set("X-Content-Security", *w.Header)
 		}
-		h = handler.ContentSecurityHandler(csDecrypters, time.Hour, true)(h)
+		wrap = func(h http.Handler) http.Handler {
+			return handler.ContentSecurityHandler(csDecrypters, time.Hour, true)(h)
+		}
 	default:
 		return "harness-bad-case", "unknown route " + c.Route, 0
 	}
@@ -216,12 +219,15 @@ func evalScript(c scriptCase) (class, desc string, outLen int) {
 		return "harness-bad-case", err.Error(), 0
 	}
 	rec := httptest.NewRecorder()
-	h.ServeHTTP(rec, req)
+	pi := guard(func() { wrap(h).ServeHTTP(rec, req) })
 	resp := rec.Body.Bytes()
 	res := rec.Result()
 
 	fail := func(class, msg string) (string, string, int) {
 		return class, fmt.Sprintf("%s [%s] ran=%d status=%d", msg, c.String(), run.Ran, rec.Code), len(run.Out)
+	}
+	if pi != nil {
+		return fail(pi.Class, "the middleware panicked: "+pi.Msg)
 	}
 	if run.NoFlusher {
 		return fail(pfx+"-no-flusher", "the ResponseWriter handed to the protected handler does not implement http.Flusher")
@@ -270,7 +276,7 @@ func checkScript(c scriptCase) *pending {
 	}
 	cc := c
 	p := &pending{Class: class, Desc: desc, Replay: replayCase{Family: "script", Script: &cc}}
-	if class == "harness-bad-case" {
+	if class == "harness-bad-case" || strings.HasPrefix(class, "panic:") {
 		return p
 	}
 	var single, noFlush []string
